@@ -49,3 +49,24 @@ Proof.
   intros be H. split; [apply ex_all_wf; cbn [In] in H; intuition lia|].
   pose proof (ex_all_runs be H) as R. cbv zeta in R. tauto.
 Qed.
+
+(* ---- tie (a): the decision points the model uses at this place ARE the current C text (Core/CoreLeafLink.v;
+   Gen/LeafCore*.v is re-translated from /repo/src by gen/c2gallina.py on every run of this check) ---- *)
+From Ivv Require Import Base.CSem Gen.LeafCoreFd Gen.LeafCoreTask Gen.LeafCoreMain Gen.LeafCoreEpoll Gen.LeafCorePoll Core.CoreLeafLink.
+
+(* iv_task_register: `st->numobjs++` and the choice of the list (`tasks_current == NULL || t->epoch == st->task_epoch`)
+   are the translated C; the round stamp of iv_run_tasks is the translated `epoch = ++st->task_epoch` (uint32_t) *)
+Theorem C06_task_register_is_the_code :
+  forall s k, int_ok (numobjs s + 1) -> task_register_code s k = Some (task_register s k).
+Proof. exact task_register_is_the_code. Qed.
+Print Assumptions C06_task_register_is_the_code.
+
+Theorem C06_round_stamp_is_the_code :
+  forall e, core_run_tasks_epoch e = Some ((e + 1) mod 4294967296, (e + 1) mod 4294967296).
+Proof. exact run_tasks_epoch_is_the_code. Qed.
+Print Assumptions C06_round_stamp_is_the_code.
+
+Theorem C06_task_init_stamp_is_the_code :
+  forall st e, st <> 0 -> core_task_init_epoch st e = Some e.
+Proof. exact leaf_task_init_epoch. Qed.
+Print Assumptions C06_task_init_stamp_is_the_code.
